@@ -171,7 +171,39 @@ class WLess(WCond):
     r: WExpr
 
 
+from geneticengine.grammar.metahandlers.dependent import Dependent  # noqa: E402
+
+
+class BkExpr(ABC):
+    pass
+
+
+@dataclass
+class BkLit(BkExpr):
+    v: Annotated[int, IntRange(0, 9)]
+
+
+@dataclass
+class BkRef(BkExpr):
+    # a reference needs a name in scope: with an empty scope this production cannot be built, and creation moves on to another one
+    scope: Annotated[list[Annotated[str, VarRange(["x", "y"])]], ListSizeBetween(0, 1)]
+    name: Annotated[str, Dependent("scope", lambda scope: VarRange(scope))]
+
+
+@dataclass
+class BkNeg(BkExpr):
+    e: BkExpr
+
+
+@dataclass
+class BkAdd(BkExpr):
+    l: BkExpr
+    r: BkExpr
+
+
 GRAMMARS = {
+    # a production that fails in some contexts (creation backtracks to its siblings)
+    "backtrack": ([BkRef, BkLit, BkNeg, BkAdd], BkExpr),
     # production weights on TWO abstract symbols (every extraction re-normalises what is stored on the classes)
     "weighted": ([WNum, WAdd, WIf, WFlag, WLess], WExpr),
     "full": ([Lit, Var, Add, Neg, Sum, If, Less, Flag, Pair, Tag], Expr),
@@ -188,9 +220,18 @@ def size(p) -> int:
 _SHARED_REPS: dict = {}
 
 
-def run_one(algo: str, rep_name: str, gname: str, seed: int, budget: int, own_tracker: bool = False, shared_rep: bool = False):
+_SHARED_GRAMMARS: dict = {}
+_SHARED_SEED_PROGRAMS: dict = {}
+
+
+def run_one(algo: str, rep_name: str, gname: str, seed: int, budget: int, own_tracker: bool = False, shared_rep: bool = False,
+            shared_grammar: bool = False):
     considered, start = GRAMMARS["full" if gname == "usable" else gname]
-    g = extract_grammar(considered, start)
+    if shared_grammar:
+        # ONE grammar object serves several searches (extracted once, as a user's script does)
+        g = _SHARED_GRAMMARS.setdefault(gname, extract_grammar(considered, start))
+    else:
+        g = extract_grammar(considered, start)
     if gname == "usable":
         # the reachable sub-grammar, as the library derives it (its production order feeds every choice)
         g = g.usable_grammar()
@@ -248,6 +289,16 @@ def run_one(algo: str, rep_name: str, gname: str, seed: int, budget: int, own_tr
             kw = {}
             alg = GeneticProgramming(problem, b, rep, random=r, population_size=10,
                                      step=SequenceStep(LexicaseSelection(), GenericCrossoverStep(0.3), GenericMutationStep(0.8)), **kw)
+        elif algo == "gpinject":
+            # a warm start: the user's list of seed programs (ONE list object, kept by the user and handed to every run) goes
+            # into the initial population, the rest is grown
+            from geneticengine.representations.tree.operators import GrowInitializer, InjectInitialPopulationWrapper
+            if (gname, seed) not in _SHARED_SEED_PROGRAMS:
+                r0 = NativeRandomSource(1000 + seed)
+                rep0 = TreeBasedRepresentation(g, MaxDepthDecider(r0, g, 4))
+                _SHARED_SEED_PROGRAMS[(gname, seed)] = [rep0.create_genotype(r0) for _ in range(5)]
+            alg = GeneticProgramming(problem, b, rep, random=r, population_size=8,
+                                     population_initializer=InjectInitialPopulationWrapper(_SHARED_SEED_PROGRAMS[(gname, seed)], GrowInitializer()), **kw)
         elif algo == "rs":
             alg = RandomSearch(problem, b, rep, random=r, **kw)
         elif algo == "hc":
@@ -270,6 +321,9 @@ def main():
         # the same search again, one after the other in THIS process, with a user-supplied tracker
         out[key + "#again"] = run_one(algo, rep_name, gname, seed, budget, own_tracker=True)
         out[key + "#again2"] = run_one(algo, rep_name, gname, seed, budget, own_tracker=True)
+        if gname == "backtrack":
+            out[key + "#sharedgrammar1"] = run_one(algo, rep_name, gname, seed, budget, shared_grammar=True)
+            out[key + "#sharedgrammar2"] = run_one(algo, rep_name, gname, seed, budget, shared_grammar=True)
         if rep_name == "dsge":
             out[key + "#sharedrep1"] = run_one(algo, rep_name, gname, seed, budget, shared_rep=True)
             out[key + "#sharedrep2"] = run_one(algo, rep_name, gname, seed, budget, shared_rep=True)
